@@ -47,6 +47,7 @@ func VP_C08_execute() {
 	}
 	vp.SizeBound(n + 2)
 	vp.Unwind(8 * (n + 2))
+	vp.NoSpin(200) // a line of at most 6 bytes: no loop of the dispatcher runs 200 times
 	g := vpGraph(vp.Choice(3))
 	_ = g.Execute(context.TODO(), string(line))
 	vp.Cover("end")
